@@ -650,6 +650,12 @@ fn canon(model: &Model, disk: &Snapshot) -> u64 {
                 h = fnv_extend(h, b"/F");
                 h = fnv_extend(h, b);
             }
+            Entry::Linked(b, first) => {
+                // two paths on one inode are another state than two equal files: a write through one is seen through the other
+                h = fnv_extend(h, b"/L");
+                h = fnv_extend(h, b);
+                h = fnv_extend(h, first.as_bytes());
+            }
             Entry::Other => h = fnv_extend(h, b"/O"),
         }
     }
